@@ -143,6 +143,26 @@ theorem verifyAdjacent_ok_iff (ok : Oracle) (now : Int) (tr un : Hdr) :
   unfold verifyAdjacentM verifyAdjacent verifyM
   by_cases h : tr.height + 1 = un.height <;> simp [h]
 
+/-- **`verify_adjacent` accepts exactly the adjacent linked successors** -/
+theorem verifyAdjacent_exact (ok : Oracle) (now : Int) (tr un : Hdr) :
+    specVerifyAdjacentOp ok now (toH tr) (toH un) (decide (verifyAdjacentM ok now tr un = .ok)) = true := by
+  unfold specVerifyAdjacentOp
+  rw [beq_iff_eq]
+  have hiff := verifyAdjacent_ok_iff ok now tr un
+  have hex := verify_adjacent_exact ok now tr un
+  unfold specVerifyAdjacentExact at hex
+  by_cases hadj : tr.height + 1 = un.height
+  · have hh : (toH un).height = (toH tr).height + 1 := by simp [toH]; omega
+    simp only [hh, decide_true, Bool.not_true, Bool.false_or, beq_iff_eq, Bool.true_and] at hex ⊢
+    rw [← hex]
+    by_cases hv : verifyM ok now tr un = .ok
+    · simp [hv, hiff.mpr ⟨hadj, hv⟩]
+    · have : ¬ verifyAdjacentM ok now tr un = .ok := fun h => hv (hiff.mp h).2
+      simp [hv, this]
+  · have hh : ¬ ((toH un).height = (toH tr).height + 1) := by simp [toH]; omega
+    have : ¬ verifyAdjacentM ok now tr un = .ok := fun h => hadj (hiff.mp h).1
+    simp [hh, this]
+
 /-- the adjacency-enforcing part of the range loop (every step but the first) is EXACTLY the
     spec's chain condition, for lists of any length -/
 theorem verifyRangeFrom_iff (oks : Nat → Oracle) (now : Int) (l : List Hdr) :
